@@ -14,8 +14,11 @@ OverrideChain(path, value) ==
 OverrideDoc(path, value) == WithTag(OverrideChain(path, value), "notnew")
 
 \* the shape process_cmdline produces: !notnew root, one key per level, down to a value
+RECURSIVE IsPlainSD(_)
+IsPlainSD(sd) == sd.form = "none" /\ sd.k \in {"dict", "list", "scalar"} /\ \A i \in 1..Len(sd.ch) : IsPlainSD(sd.ch[i][2])
 RECURSIVE IsChain(_)
-IsChain(sd) == sd.form = "none" /\ (sd.k # "dict" \/ (Len(sd.ch) = 1 /\ IsChain(sd.ch[1][2])))
+IsChain(sd) == IF sd.k = "dict" /\ Len(sd.ch) = 1 THEN sd.form = "none" /\ IsChain(sd.ch[1][2])
+               ELSE IsPlainSD(sd) /\ sd.k # "dict"
 IsOverrideDoc(sd) ==
     /\ sd.k = "dict" /\ sd.form = "tag" /\ sd.anew = "F" /\ sd.pr = PrNone /\ sd.del = "N" /\ sd.safe = "N"
     /\ Len(sd.ch) = 1 /\ sd.ch[1][1].t = "s" /\ IsChain(sd.ch[1][2])
